@@ -192,3 +192,28 @@ package eds
 //@   loop 1: invariant forall j int :: 0 <= j && j < idx ==> len(rawShares[j]) == int(edsWidth(eds.ExtendedDataSquare))
 //@   loop 1: invariant forall j int :: 0 <= j && j < idx ==> rawShares[j] != nil ==> forall c int :: 0 <= c && c < len(rawShares[j]) ==> rawShares[j][c] == cellShare(eds.ExtendedDataSquare, fromCoords.Row + j, c)
 //@   loop 1: invariant 0 <= fromCoords.Col && fromCoords.Col < odsSize && 0 <= toCoords.Col && toCoords.Col < odsSize && fromCoords.Row * odsSize + fromCoords.Col == from && toCoords.Row * odsSize + toCoords.Col == to - 1
+
+// ---------------------------------------------------------------------------------------------
+// C02 / C11: namespace data of a stored square. The rows are the ones RowsWithNamespace derives from the
+// square's own roots; *every* one of them is handed to the group with Go (which runs every function it is
+// given - no TryGo, no limit, no early exit from the loop, whatever the context says), each worker asks the
+// accessor for its own row and namespace and stores the answer in its own slot; success is returned
+// only after Wait. So a nil error means every slot was filled.
+//@ extern (github.com/celestiaorg/celestia-node/share/eds.Accessor).AxisRoots
+//@   ensures err == nil ==> result0 != nil
+//@ func NamespaceData
+//@   property C02 C11
+//@   noframe
+//@   requires eds != nil
+//@   only errgroup.: WithContext Go Wait
+//@   callpre share.RowsWithNamespace: $arg0 == roots && $arg1 == namespace
+//@   checks err == nil ==> len(rows) == len(rowIdxs) && result0 == rows
+//@   loop 1: invariant -1 <= rangeindex && rangeindex < len(rowIdxs) && len(rows) == len(rowIdxs)
+//@   loop 1: backedge rangeindex == head(rangeindex) + 1
+//@   checks err == nil ==> rangeindex == len(rowIdxs)
+
+//@ func NamespaceData$1
+//@   property C02 C11
+//@   noframe
+//@   callpre Accessor).RowNamespaceData: $arg2 == namespace && $arg3 == idx
+//@   checks result == nil ==> rows[i] == rowData
